@@ -205,6 +205,95 @@ def transformBlocks (g : Bool) (m : RMap) : List Block → List Block
   | .imports imps :: bs => .imports (ignoreShadowed (imps.map (transformImport m))) :: transformBlocks g m bs
   | .text s :: bs => .text (transformText g m s) :: transformBlocks g m bs
 
+/-! ### repaired variants (fixes/C18-H1.diff: single pass; fixes/C18-H3.diff: licensed body rename)
+
+  H1: every import is renamed once, by the entry with the longest key (most components) that is a dotted
+  prefix of its path (`transform_import`), and the body is scanned once with one alternation pattern,
+  longest key first (`pattern.sub`).  H3 (on top of H1): an alias that would become dotted is kept, and
+  only the entries that renamed the local name of some import of the file (at any depth) are applied to
+  the body. -/
+
+/-- number of components of a key -/
+def compLen (k : Str) : Nat := (splitDot k).length
+
+/-- The `for parts, k in key_parts` loop of the repaired `transform_import`: the entry with the most
+    components among those whose key is a component prefix of `f` (the first such in dict order). -/
+def bestMatch (m : RMap) (f : Str) : Option (Str × Str) :=
+  m.foldl (fun best kv =>
+    if (splitDot kv.1).isPrefixOf (splitDot f) &&
+        (match best with
+         | none => true
+         | some b => decide (compLen b.1 < compLen kv.1)) then some kv else best) none
+
+/-- H3: `from glob import glob` renamed by `glob => utils.glob`: an alias cannot be dotted; keep it. -/
+def keepAlias (orig res : Imp) : Imp :=
+  if res.importAs ≠ orig.importAs ∧ res.importAs ≠ res.fullname ∧ '.' ∈ res.importAs then
+    ⟨res.fullname, orig.importAs⟩
+  else res
+
+/-- repaired `transform_import` (`lic`: with H3) -/
+def transformImport1 (lic : Bool) (m : RMap) (imp : Imp) : Imp :=
+  match bestMatch m imp.fullname with
+  | none => imp
+  | some kv => if lic then keepAlias imp (imp.replace kv.1 kv.2) else imp.replace kv.1 kv.2
+
+/-- H3: does renaming `imp` rename its local name?  Then its entry is applied to the body. -/
+def licensedKey (m : RMap) (imp : Imp) : Option Str :=
+  match bestMatch m imp.fullname with
+  | none => none
+  | some kv =>
+    let r := imp.replace kv.1 kv.2
+    if r.importAs ≠ imp.importAs ∧ ¬ (r.importAs ≠ r.fullname ∧ '.' ∈ r.importAs) then some kv.1 else none
+
+/-- the alternation `(?:k1|k2|...)`, longest key first: the longest key that matches here -/
+def bestKeyAt (g : Bool) (keys : RMap) (prev : Option Char) (s : Str) : Option (Str × Str) :=
+  keys.foldl (fun best kv =>
+    if matchAt g kv.1 prev s &&
+        (match best with
+         | none => true
+         | some b => decide (b.1.length < kv.1.length)) then some kv else best) none
+
+/-- one scan of the text with the alternation pattern -/
+def scanAlt (g : Bool) (keys : RMap) : Nat → Option Char → Str → Str
+  | _, _, [] => []
+  | skip + 1, _, c :: cs => scanAlt g keys skip (some c) cs
+  | 0, prev, c :: cs =>
+    match bestKeyAt g keys prev (c :: cs) with
+    | some kv => kv.2 ++ scanAlt g keys (kv.1.length - 1) (some c) cs
+    | none => c :: scanAlt g keys 0 (some c) cs
+
+def transformText1 (g : Bool) (keys : RMap) (s : Str) : Str := scanAlt g keys 0 none s
+
+/-- which tree: dot guard (C18-D3, applied), single pass (H1), licensed body (H3) -/
+structure Variant where
+  guard : Bool
+  single : Bool
+  licensed : Bool
+
+def blockImports : List Block → List Imp
+  | [] => []
+  | .imports imps :: bs => imps ++ blockImports bs
+  | .text _ :: bs => blockImports bs
+
+/-- `nested`: the imports that are not module-level statements (they are text to pyflyby, but H3 looks at them
+    to decide which entries rename a local name) -/
+def bodyKeys (v : Variant) (m : RMap) (nested : List Imp) (bs : List Block) : RMap :=
+  if v.licensed then
+    let ks := (blockImports bs ++ nested).filterMap (licensedKey m)
+    m.filter fun kv => ks.contains kv.1
+  else m
+
+def transformBlocksV (v : Variant) (m : RMap) (nested : List Imp) (all bs : List Block) : List Block :=
+  match bs with
+  | [] => []
+  | .imports imps :: rest =>
+    .imports (ignoreShadowed (imps.map (if v.single then transformImport1 v.licensed m else transformImport m)))
+      :: transformBlocksV v m nested all rest
+  | .text s :: rest =>
+    .text (if v.single then transformText1 v.guard (bodyKeys v m nested all) s
+           else transformText v.guard (bodyKeys v m nested all) s)
+      :: transformBlocksV v m nested all rest
+
 /-! ### tokenisation into maximal word / non-word runs (specification side) -/
 
 /-- Maximal runs of `\w` / non-`\w` characters. -/
